@@ -39,6 +39,8 @@ class Engine:
         self.last_trail = []
         self.split_depth = None
         self.base = 0
+        self.noise_used = False
+        self.noise_sites = []
         self.freshn = 0
         self.declared = {}
         self.stats = dict(
@@ -93,6 +95,8 @@ class Engine:
         self.carried = model
         self.freshn = 0
         self.declared = {}
+        self.noise_used = False
+        self.noise_sites = []
         if not self.trail and model is not None:
             self.model = model
 
